@@ -78,6 +78,8 @@ let () =
          add "SM" (spec_str (spec_find_list p false s init));
          add "BRP" (if backref_to_position p then "1" else "0");
          add "WF" (if wf_pattern p then "1" else "0");
+         (* is the fixed fuel above the proved bound cost |s| items (C15_api_terminates)? *)
+         add "FB" (if Z.leb (cost s p.p_items) (z_of_int 300000) then "1" else "0");
          if mode = "a" then begin
            add "F" (dres_str (fst (find_im p fuel s Z0 (ptn = []) init)) ^ "|" ^ dres_str (find_s p s init));
            add "M" (dres_str (fst (match_im p fuel s Z0 init)) ^ "|" ^ dres_str (match_s p s init));
